@@ -305,7 +305,10 @@ func (p *service) processSubscribe(msg *message.SubscribeMessage) error {
 	for i, t := range topics {
 		rqos, err := p.topicsMgr.Subscribe(t, qos[i], &p.onpub)
 		if err != nil {
-			return err
+			// the filter is rejected: report it in the SUBACK and go on with the others
+			log.Warningf("(%s) Subscribing topic %q failed: %v", p.cid(), string(t), err)
+			retcodes = append(retcodes, message.QosFailure)
+			continue
 		}
 		p.sess.AddTopic(string(t), qos[i])
 
